@@ -12,13 +12,16 @@ from harness.util import vec, guarded, first_failures
 ID = 'C10'
 LEVEL = 'proof'
 LEVEL_TEXT = ('Lean theorems, for every lattice given as data (face supports as a table), every error, every '
-              'tie-break stream and every step of every run of both sweep automata (SweepDecoder3D, '
-              'RotatedSweepDecoder3D): if the flip table agrees with the face stabilizers on every edge '
-              '(decidable hypothesis FlipTableOK) the tracked signs equal the face syndrome of error + '
-              'correction so far, the correction is Z-only, and a stop without excitations leaves zero face '
-              'syndrome. FlipTableOK is proved for Toric3DCode of every size L_i >= 2 (and the other lattices as '
-              'stated in Properties/C10.lean). The model is tied to the decoders by differential runs of '
-              'flip_edge on every edge, of every sweep_move of traced decodes, and of full decode results.')
+              'tie-break stream, every loop bound and every step of every run of both sweep automata '
+              '(SweepDecoder3D, RotatedSweepDecoder3D, all eight sweep directions): if the flip table agrees '
+              'with the face stabilizers on every edge (decidable hypothesis flipTableOK) the tracked signs equal '
+              'the face syndrome of error + correction so far, the run never raises, the correction is Z-only, '
+              'and a stop without excitations leaves zero face syndrome. flipTableOK (and the two side '
+              'conditions) are proved for Toric3DCode of every size L_i >= 2 and Planar3DCode of every size, so '
+              'C10 holds there unconditionally; for RotatedPlanar3DCode they are kernel-checked for the listed '
+              'sizes up to 4x4x2 (theorems named _partial) and evaluated by the compiled model on every size '
+              'the harness runs. The model is tied to the decoders by differential runs of flip_edge on every '
+              'edge, of every sweep_move of traced decodes, and of full decode results.')
 LEVEL_NOTE = ('trusted: Lean kernel + standard axioms; correspondence harness; hand-written Lean transcription of '
               'the two automata and of the four 3-D lattices (compared with the implementation on every run: '
               'coordinates, stabilizer supports, types, z_indices); signs are modelled as 0/1 values; the numpy '
@@ -309,7 +312,7 @@ def run_cases(ctx, quick_only=False):
         k = 0
         for w in (0, 1, 2):
             for zs in itertools.combinations(range(n), w):
-                if not ctx.thorough and w == 2 and n > 12 and rng.random() < 0.5:
+                if not ctx.thorough and w == 2 and n > 24 and rng.random() < 0.5:
                     continue
                 cases.append((tag, size, zs, (), scripts[k % len(scripts)], 2 if DEC_OF[tag] == 'rot' else 4,
                               f'exhaustive-w{w}'))
@@ -418,8 +421,27 @@ def direct_move_stream(ctx):
     return s.run()
 
 
+def table_stream(ctx):
+    """The decidable hypothesis `flipTableOK` evaluated by the compiled model (list of the edges on
+    which the model's flip table disagrees with the model's face stabilizers) against the same
+    list computed on the implementation (flip_edge vs parity-check matrix)."""
+    s = Stream('flip-table-consistency-per-lattice')
+    for tag in CODE_NAME:
+        for size in sizes(ctx, tag):
+            code = make_code(tag, size)
+
+            def go():
+                bad = [loc for loc in code.qubit_coordinates
+                       if check_case({'kind': 'geom', 'code': tag, 'size': list(size), 'edge': list(loc)})]
+                return f'{len(bad)}/{code.n} ' + ';'.join(loc_s(b) for b in bad)
+            s.add(f'sw.table {DEC_OF[tag]} {spec(tag, size)}', guarded(go),
+                  {'code': CODE_NAME[tag], 'size': list(size), 'what': 'edges with inconsistent flip table'},
+                  tag=tag)
+    return s.run()
+
+
 def correspondence(ctx):
-    streams = [lattice_stream(ctx), flip_stream(ctx), site_stream(ctx)]
+    streams = [lattice_stream(ctx), flip_stream(ctx), table_stream(ctx), site_stream(ctx)]
     streams += decode_streams(ctx)
     streams.append(direct_move_stream(ctx))
     return streams
